@@ -5,12 +5,13 @@ sys.path.insert(0, os.path.dirname(os.path.dirname(os.path.abspath(__file__))))
 import vlib
 from vlib import VERIF
 
-CONTAINERS = ["queue", "vec", "str", "strz"]
+CONTAINERS = ["queue", "vec", "str", "strz", "slotmap", "flatmap"]
 # exhaustive history length per container: (quick, thorough); bounded by the alphabet size
-MAXLEN = {"queue": (5, 6), "vec": (4, 5), "str": (3, 4), "strz": (4, 5)}
+MAXLEN = {"queue": (5, 6), "vec": (4, 5), "str": (3, 4), "strz": (4, 5), "slotmap": (4, 5), "flatmap": (4, 5)}
 # random histories per container: (cases quick, cases thorough, max ops quick, max ops thorough)
 RANDOM = {"queue": (400, 4000, 2000, 10000), "vec": (400, 4000, 2000, 10000), "str": (400, 4000, 2000, 10000),
-          "strz": (100, 1000, 200, 1000)}
+          "strz": (100, 1000, 200, 1000), "slotmap": (400, 4000, 2000, 10000),
+          "flatmap": (400, 4000, 2000, 10000)}
 
 # Candidate defects of /repo found by this check and reported to the lead, who decides between a
 # fix: commit in /repo and an entry in known_findings.json (matched by the same key).  Until
@@ -27,6 +28,13 @@ PENDING_CANDIDATES = {
         "as_bytes_with_nul()/as_c_str() is not NUL-terminated on memory that is not already zero: RelocatableString::init writes no "
         "terminator (history: C str reloc u8 1 ; O nul = u170) and Polymorphic/RelocatableString filled to capacity never write data[capacity] "
         "(history: C str heap u8 1 ; O push 97 = ok ; O nul = u170); reference: u0",
+    "slotmap:cap0-head-not-invalid":
+        "SlotMap::new(0) leaves idx_to_data_free_list_head = 0 instead of INVALID: insert panics (index out of bounds) instead of returning None "
+        "and next_free_key returns Some(0). histories: C slotmap heap el 0 ; O insert 1 = P (reference: n)  and  C slotmap heap el 0 ; O nextfree = s0 (reference: n); "
+        "FlatMap::new(0).insert(k, v) panics for the same reason: C flatmap heap el 0 ; O insert 0 1 = P (reference: eFull)",
+    "slotmap:get-contains-oob-panic":
+        "SlotMap::get / get_mut / contains with key >= capacity panic (index out of bounds) although the doc promises None / false for a key that "
+        "is not contained (insert_at and remove were given the bounds check by fix: 1f4a6fa / b46c587). history: C slotmap heap el 1 ; O get 1 = P (reference: n)",
 }
 
 
@@ -57,6 +65,14 @@ def classify(hist, mismatch=""):
             return "string:static-full-zero-len-remove-panics"
         if name == "nul" and flavour in ("heap", "reloc"):
             return "string:missing-nul-terminator"
+    cap = hdr[4] if len(hdr) > 4 else "?"
+    if kind == "flatmap" and cap == "0" and name == "insert" and impl == "P":
+        return "slotmap:cap0-head-not-invalid"   # FlatMap::new(0).insert(..) panics for the same reason
+    if kind == "slotmap":
+        if cap == "0" and ((name == "insert" and impl == "P") or (name == "nextfree" and impl == "s0")):
+            return "slotmap:cap0-head-not-invalid"
+        if name in ("get", "contains") and impl == "P" and cap != "?" and int(cur[2]) >= int(cap):
+            return "slotmap:get-contains-oob-panic"
     return None
 
 
@@ -78,7 +94,7 @@ def run(ctx):
     percont = {}
     all_jobs = []
     spec_mm, model_mm, failed = [], [], []
-    for c in CONTAINERS:
+    def one_container(c):
         maxlen = MAXLEN[c][1 if th else 0]
         nq, nt, lq, lt = RANDOM[c]
         jobs = []
@@ -88,9 +104,15 @@ def run(ctx):
             jobs.append(("rnd:%s:%d" % (c, sh_i), [exe, "rnd", c, str(lt if th else lq), str(sh_i), str(nsh), str(ctx.seed), str(nt if th else nq)]))
         t0 = time.time()
         r = vlib.run_pipelines(jobs, driver)   # one call per container: each keeps its own mismatch lines
+        return c, maxlen, jobs, r, round(time.time() - t0, 1)
+
+    import concurrent.futures as cf
+    with cf.ThreadPoolExecutor(max_workers=3) as ex:   # a few containers at a time keeps the cores busy at the tails
+        results = list(ex.map(one_container, CONTAINERS))
+    for c, maxlen, jobs, r, wall in results:
         percont[c] = {"cases": r["cases"], "ops": r["ops"], "distinct_nontrivial": r["distinct_nontrivial"],
                       "mismatches_model": r["mismatches_model"], "mismatches_spec": r["mismatches_spec"],
-                      "exhaustive_maxlen": maxlen, "wall_s": round(time.time() - t0, 1)}
+                      "exhaustive_maxlen": maxlen, "wall_s": wall}
         for k in ("cases", "ops", "distinct_nontrivial", "mismatches_model", "mismatches_spec"):
             tot[k] += r[k]
         tot["opcount"].update(r["opcount"])
@@ -125,7 +147,14 @@ def run(ctx):
     candidates = {}
     known_keys = {k.get("key") for k in ctx.known if k.get("status", "known") == "known"}
     nviol = 0
+    seen_sig = set()
     for lbl, cmd, line in spec_mm:
+        # one re-run per distinct (container, op, previous op, panicked?) signature, not per line
+        opname = line.split("line=[O ")[1].split()[0] if "line=[O " in line else "?"
+        sig = (lbl.split(":")[1], opname, line.split(" prev=")[1].split()[0] if " prev=" in line else "", line.endswith("impl=P"))
+        if sig in seen_sig:
+            continue
+        seen_sig.add(sig)
         case_no = int(line.split("case=")[1].split()[0])
         hist = vlib.extract_case(cmd.split(), driver, case_no)
         key = classify(hist, line)
